@@ -109,7 +109,7 @@ def observe(H, g):
                     return entry("laplacian", f"laplacian(order={d},rescale={resc},{sp})", d=d, rows=rows, cols=rows,
                                  m=np.rint(M).astype(int).tolist() if np.allclose(M, np.rint(M)) else [[-777]])
                 guard(f"laplacian(order={d},rescale={resc},{sp})", lap)
-        for ds, ws in (([1, 2], [1, 1]), ([1, 2, 3], [2, 1, 3]), ([2], [1])):
+        for ds, ws in (([1, 2], [1, 1]), ([1, 2, 3], [2, 1, 3]), ([2], [1]), ([1, 2, 1], [1, 2, 3]), ([2, 2], [1, 3])):
             for resc in (False, True):
                 def ml():
                     if not nodes:
